@@ -37,7 +37,7 @@ Section Tie.
 
   Definition enc_self (ch : N) (st : cstate) : val := VR [("channel_id", VN ch); ("kind", enc_state st)].
 
-  Definition frame_unexpected : val := VC "Err" [VC "FrameUnexpected" []].
+  Definition frame_unexpected : val := VC "Err" [VC "Error::FrameUnexpected" []].
 
   (* what a call leaves behind and returns, for each outcome of the model: on an error the
      collector has forgotten what it held (kind was taken) *)
